@@ -318,6 +318,50 @@ theorem batch_equals_sequential (env : Env) (chain : Chain) (hs : List Header) (
     coordinator_complete _ _ _ hall
   exact ⟨h1, by rw [h1, sequential_eq_workers env chain hs seals ok]⟩
 
+/-- **the tie of the contiguity hypothesis**: the pre-check `ValidateHeaderChain` (and `insertChain`) performs before it hands a
+    batch to `VerifyHeaders` — consecutive numbers AND `chain[i].ParentHash == chain[i-1].Hash()` — holds exactly when the batch
+    satisfies the contiguity hypothesis `BatchOk.contiguous` of `batch_equals_sequential` (numbers in the uint64 range). -/
+theorem validateHeaderChain_establishes_contiguity (hs : List Header) (hsm : ∀ a ∈ hs, a.number + 1 < two64) :
+    linked hs = true ↔
+      (∀ i a b, hs[i]? = some a → hs[i + 1]? = some b → b.number = a.number + 1 ∧ b.parentHash = a.hash) :=
+  ⟨fun h => linked_contiguous hs h hsm, contiguous_linked hs⟩
+
+/-- a batch that fails the pre-check is refused outright — no header of it is verified or written — for every schedule. -/
+theorem validateHeaderChain_rejects_unlinked (env : Env) (chain : Chain) (hs : List Header) (seals : List Bool) (completion : List Nat)
+    (h : linked hs = false) : validateHeaderChain env chain hs seals completion = .nonContiguous := by
+  unfold validateHeaderChain; simp [h]
+
+/-- **header-batch import = one-by-one verification**: `ValidateHeaderChain` (pre-check + `VerifyHeaders` + first failure), for
+    every completion order of the workers, accepts a batch iff it is linked and every header passes `VerifyHeader` against the
+    chain extended by its predecessors, and otherwise reports the same first failure — over a parent-closed, collision-free
+    chain reader, without assuming contiguity (the pre-check provides it). -/
+theorem validateHeaderChain_equals_sequential (env : Env) (chain : Chain) (hs : List Header) (seals : List Bool) (completion : List Nat)
+    (hsm : ∀ a ∈ hs, a.number + 1 < two64) (hfirst : ∀ a, hs[0]? = some a → 1 ≤ a.number)
+    (hwf : ∀ hash n x, chain.getHeader hash n = some x → x.hash = hash ∧ x.number = n)
+    (hclosed : ∀ a ∈ hs, (chain.getHeader a.hash a.number).isSome →
+      ∃ p, chain.getHeader a.parentHash (a.number - 1) = some p ∧ (2 < a.number → (chain.getHeader p.parentHash (a.number - 2)).isSome))
+    (hnocoll : ∀ hash n x, chain.getHeader hash n = some x → ∀ y ∈ hs, y.hash = x.hash → y = x)
+    (hall : ∀ i, i < hs.length → i ∈ completion) :
+    validateHeaderChain env chain hs seals completion =
+      if linked hs then
+        (match sequentialFirstFailure env seals chain hs 0 with
+         | none => .accepted
+         | some (i, e) => .rejected i e)
+      else .nonContiguous := by
+  by_cases hl : linked hs = true
+  · have ok : BatchOk chain hs :=
+      { contiguous := linked_contiguous hs hl hsm, first := hfirst, small := fun a ha => by have := hsm a ha; omega,
+        wf := hwf, closed := hclosed, nocoll := hnocoll }
+    unfold validateHeaderChain
+    simp only [hl, Bool.not_true, Bool.false_eq_true, if_false, if_true]
+    rw [(batch_equals_sequential env chain hs seals completion ok hall).2]
+    cases sequentialFirstFailure env seals chain hs 0 with
+    | none => rfl
+    | some ie => rfl
+  · have hl' : linked hs = false := by simpa using hl
+    rw [validateHeaderChain_rejects_unlinked env chain hs seals completion hl']
+    simp [hl']
+
 /-- two schedules of the same batch report the same thing. -/
 theorem batch_schedule_independent (env : Env) (chain : Chain) (hs : List Header) (seals : List Bool) (c₁ c₂ : List Nat)
     (h₁ : ∀ i, i < hs.length → i ∈ c₁) (h₂ : ∀ i, i < hs.length → i ∈ c₂) :
@@ -398,6 +442,13 @@ example : BatchOk exStored exBatch where
     · split at h
       · cases h; revert hyx; revert y; decide
       · cases h
+
+-- `validateHeaderChain_*`: the example batch passes the pre-check; re-pointing its second header at another parent, a number gap
+-- or swapping the order fails it (and the import is refused whatever the workers would say)
+example : linked exBatch = true ∧ (∀ a ∈ exBatch, a.number + 1 < two64) := by decide
+example : linked [exBatch[0]!, { exBatch[1]! with parentHash := 999 }] = false ∧ linked exBatch.reverse = false ∧
+    linked [exBatch[0]!, { exBatch[1]! with number := 20001 }] = false := by decide
+example : validateHeaderChain (genEnv exCfg 1700000000 (fun _ => false)) exStored [exBatch[0]!, { exBatch[1]! with parentHash := 999 }] [true, true] [1, 0] = .nonContiguous := by decide
 
 -- … and the first header failing its seal is reported at index 0 by both paths, for any schedule
 example : firstFailure (verifyHeadersBatch (genEnv exCfg 1700000000 (fun h => h.number == 19999)) exStored exBatch [true, true] [1, 0]) = some (0, .sealErr) ∧
